@@ -24,7 +24,9 @@ RULE = ("schemas: seeded gen/schema.py descriptions built from SDL and re-built 
         "string defaults with quotes/backslashes/control characters, list / input-object / null defaults, deprecated fields "
         "and enum values with and without reasons, descriptions, custom directives with arguments, mutation/subscription roots) "
         "+ the same descriptions built from instances of SUBCLASSES of every library type class (incl. wrappers, RegexType, UUID) and compared with the plain-class twin + corpus; executed with BlockingExecutor and Executor on BlockingRuntime (all), AsyncIORuntime (private loop) and "
-        "ThreadPoolRuntime(2) (subset); includeDeprecated true/false/omitted; introspection enabled/disabled. "
+        "ThreadPoolRuntime(2) (subset); includeDeprecated true/false/omitted; introspection enabled/disabled; __type(name:) of names in / not in the schema; "
+        "HISTORIES introspect -> in-place change of the live schema (hide implementer, drop union member, replace types, rename enum values, "
+        "set / delete defaults) -> introspect again on Executor and BlockingExecutor, + ctx.later repeats on the schema objects kept alive. "
         "non-trivial = distinct (schema, aspect) with at least one user type beyond Query")
 ASSUMPTIONS = [
     "type references have at most 7 wrappers (the standard query's TypeRef fragment stops at 8 levels; deeper types are truncated by the QUERY, not by the server)",
@@ -402,6 +404,75 @@ def oracle_schema(ctx, label, schema, case, cfgs, model_reqs):
     if len(user_types) > 1:
         ctx.nontrivial(("schema", json.dumps(dump, sort_keys=True)))
 
+    check_reports_schema(ctx, schema, base, detail0)
+
+    # -- (c) deprecated members hidden unless requested ------------------------------------
+    want = L.hide_deprecated(base)
+    for variant in ("false", "omitted"):
+        st, r = L.execute(schema, std_query(variant), cfgs[-1] if variant == "omitted" else cfgs[0])
+        ctx.count()
+        if st != "ok" or r.get("errors"):
+            ctx.fail("deprecated-hidden:raises", "introspection without deprecated members fails", dict(detail0, check="deprecated", variant=variant))
+            continue
+        if r["data"] != want:
+            p = L.first_diff(want, r["data"])
+            ctx.fail("deprecated-hidden:%s:%s" % (variant, L.diff_class(p or "")),
+                     "with includeDeprecated %s the result is not the standard result minus the deprecated members (at %s)" % (variant, p),
+                     dict(detail0, check="deprecated", variant=variant, path=p))
+    n_dep = sum(1 for t in base["__schema"]["types"] for f in (t.get("fields") or []) + (t.get("enumValues") or []) if f.get("isDeprecated"))
+    ctx.stat("deprecated-members", n_dep)
+
+    # -- (d) disabled: hides every meta field, keeps the ordinary ones -----------------------
+    oracle_disabled(ctx, schema, detail0, cfgs)
+    # -- (e) __type(name:) of names in / not in the schema ---------------------------------------
+    oracle_type_by_name(ctx, schema, detail0, cfgs)
+    return base
+
+
+def oracle_type_by_name(ctx, schema, detail0, cfgs, gone=()):
+    """`__type(name:)`: a name that is not in the schema (unknown, empty, a type that was removed / hidden: `gone`)
+    answers `{"__type": null}` without errors — it never raises (fixed: f2efa6b; the check keeps asking) —,
+    and the names of built-in scalars and introspection types resolve to themselves."""
+    for cfg in cfgs[:2]:
+        for name in ["Nope", ""] + (["query", "__nope"] if cfg == cfgs[0] else []) + list(gone):
+            if name in schema.types:
+                continue
+            ctx.count()
+            st, r = L.execute(schema, "{ __type(name: %s) { name kind } }" % json.dumps(name), cfg)
+            if st != "ok" or r.get("errors") or r.get("data") != {"__type": None}:
+                ctx.fail("type-query-unknown-name-not-null:" + ("raises" if st != "ok" else ("errors" if r.get("errors") else "data")),
+                         "__type(name: %r) of a name that is not in the schema does not answer null (%s)" % (name, r if st != "ok" else str(r)[:200]),
+                         dict(detail0, check="type-by-name", name=name, config=cfg, gone=list(gone)))
+        for name in (("__Type", "__InputValue", "ID", schema.query_type.name) if cfg == cfgs[0] else ()):
+            ctx.count()
+            st, r = L.execute(schema, "{ __type(name: %s) { name } }" % json.dumps(name), cfg)
+            if st != "ok" or r.get("errors") or r.get("data") != {"__type": {"name": name}}:
+                ctx.fail("type-query-known-name-not-resolved", "__type(name: %r) does not resolve to that type" % name,
+                         dict(detail0, check="type-by-name", name=name, config=cfg))
+
+
+def oracle_subclass_twin(ctx, case, base):
+    """Type objects that are instances of subclasses of the library classes (ScalarType subclasses are the
+    documented way to write custom scalars; RegexType is one) are reported exactly like their plain-class twins."""
+    twin, _ = load_case(dict(case, twin=True))
+    st, r = L.execute(twin, std_query(), "blocking")
+    ctx.count()
+    ctx.nontrivial(("subclass-twin", case.get("seed")))
+    if st != "ok" or r.get("errors"):
+        ctx.notes.append("plain twin of %r could not be introspected" % (case,))
+        return
+    if r["data"] != base:
+        p = L.first_diff(r["data"], base)
+        ctx.fail("subclass-instance-differs:" + L.diff_class(p or ""),
+                 "a schema built from instances of SUBCLASSES of the library type classes is reported differently from its plain-class twin (at %s)" % p,
+                 {"case": case, "check": "subclass-twin", "path": p})
+
+
+def check_reports_schema(ctx, schema, base, detail0):
+    """(a) + (b) of the statement for ONE introspection result `base` of the live `schema` as it is NOW:
+    decoded result == the schema's current content; every reported default parses back to the current default."""
+    from py_gql.schema import InterfaceType, ObjectType
+    dump = L.dump_full(schema)
     # -- (a) nothing missing, nothing invented --------------------------------------------
     dec = L.decode_introspection(base)
     exp = L.strip_for_compare(dump, False)
@@ -463,42 +534,6 @@ def oracle_schema(ctx, label, schema, case, cfgs, model_reqs):
                      % (text2, t2, v2, reason2), dict(detail0, check="default", where=where, reported=texts.get(where),
                                                      shrunk={"type": str(t2), "value": L.canon_value_ordered(v2), "reported": text2}))
 
-    # -- (c) deprecated members hidden unless requested ------------------------------------
-    want = L.hide_deprecated(base)
-    for variant in ("false", "omitted"):
-        st, r = L.execute(schema, std_query(variant), cfgs[-1] if variant == "omitted" else cfgs[0])
-        ctx.count()
-        if st != "ok" or r.get("errors"):
-            ctx.fail("deprecated-hidden:raises", "introspection without deprecated members fails", dict(detail0, check="deprecated", variant=variant))
-            continue
-        if r["data"] != want:
-            p = L.first_diff(want, r["data"])
-            ctx.fail("deprecated-hidden:%s:%s" % (variant, L.diff_class(p or "")),
-                     "with includeDeprecated %s the result is not the standard result minus the deprecated members (at %s)" % (variant, p),
-                     dict(detail0, check="deprecated", variant=variant, path=p))
-    n_dep = sum(1 for t in base["__schema"]["types"] for f in (t.get("fields") or []) + (t.get("enumValues") or []) if f.get("isDeprecated"))
-    ctx.stat("deprecated-members", n_dep)
-
-    # -- (d) disabled: hides every meta field, keeps the ordinary ones -----------------------
-    oracle_disabled(ctx, schema, detail0, cfgs)
-    return base
-
-
-def oracle_subclass_twin(ctx, case, base):
-    """Type objects that are instances of subclasses of the library classes (ScalarType subclasses are the
-    documented way to write custom scalars; RegexType is one) are reported exactly like their plain-class twins."""
-    twin, _ = load_case(dict(case, twin=True))
-    st, r = L.execute(twin, std_query(), "blocking")
-    ctx.count()
-    ctx.nontrivial(("subclass-twin", case.get("seed")))
-    if st != "ok" or r.get("errors"):
-        ctx.notes.append("plain twin of %r could not be introspected" % (case,))
-        return
-    if r["data"] != base:
-        p = L.first_diff(r["data"], base)
-        ctx.fail("subclass-instance-differs:" + L.diff_class(p or ""),
-                 "a schema built from instances of SUBCLASSES of the library type classes is reported differently from its plain-class twin (at %s)" % p,
-                 {"case": case, "check": "subclass-twin", "path": p})
 
 
 def world_value(t, depth=0):
@@ -692,6 +727,14 @@ def _run(ctx):
         base = oracle_schema(ctx, label, schema, case, cfgs, None)
         if case["mode"] == "code-sub" and base is not None:
             oracle_subclass_twin(ctx, case, base)
+        if base is not None:
+            # history independence: the same schema OBJECT answers the same at the end of the run
+            ctx.later("introspect", lambda s=schema: L.execute(s, std_query(), "blocking")[1].get("data"), base, {"case": case})
+        if case["mode"] in ("sdl", "code") and "seed" in case and base is not None:
+            from corr import C15_history
+            import sys
+            ctx.extra["histories"] = ctx.extra.get("histories", 0) + 1
+            C15_history.run(ctx, sys.modules[__name__], case, ctx.extra["histories"])
         if i <= 3:
             ctx.sample({"case": case, "types": sorted(schema.types)[:12]})
         if ctx.model_ok and base is not None:
@@ -701,6 +744,12 @@ def _run(ctx):
 
 def replay(ctx, data):
     inp = data.get("input", {})
+    if inp.get("check") == "history":
+        from corr import C15_history
+        import sys
+        sub = Ctx2(ctx)
+        C15_history.one_history(sub, sys.modules[__name__], inp["case"], inp["kind"], inp["hseed"])
+        return not any(f["signature"] == data.get("signature") for f in sub.found)
     if inp.get("check") == "empty-reason":
         sub = Ctx2(ctx)
         oracle_empty_reason(sub)
@@ -724,6 +773,7 @@ class Ctx2:
     def __init__(self, ctx):
         self.found = []
         self.tier = ctx.tier
+        self.model_ok = False
         self.notes = []
         self.extra = {}
 
